@@ -74,4 +74,33 @@ def run (plus : Bool) : HState → List (ChangeType × Outcome) → HState
 /-- the truth: NGINX failed to take the last applied configuration -/
 def HState.failed (s : HState) : Bool := s.stale || s.lastFail
 
+/-! ### Gateway status writes OUTSIDE batch processing
+
+`parseAndCaptureEvent` runs the object filter of the Service that fronts NGF (`nginxGatewayServiceUpsert` /
+`nginxGatewayServiceDelete`) for an upsert / delete event of that Service, BEFORE `Process()`: the Gateway statuses are
+rewritten (`PrepareGatewayRequests`) from the latest graph with the REMEMBERED result `h.latestReloadResult`. -/
+
+/-- the reload result an out-of-batch Gateway status write uses in state `s` -/
+def outOfBatchWrite (s : HState) : Bool := s.latestErr
+
+/-- one HandleEventBatch whose events may contain an upsert/delete of the NGF front Service (`svc`):
+(new state, result used by the out-of-batch write — `none` without such an event —, result handed to `updateStatuses`) -/
+def stepSvc (plus : Bool) (s : HState) (svc : Bool) (ct : ChangeType) (o : Outcome) : HState × Option Bool × Option Bool :=
+  ((step plus s ct o).1, (if svc then some (outOfBatchWrite s) else none), (step plus s ct o).2)
+
+/-- the reload result behind the Gateway status as it stands after the batch (`none`: the batch wrote none): the batch's own
+`updateStatuses` comes last; a NoChange batch leaves what the callback wrote -/
+def lastGatewayWrite (plus : Bool) (s : HState) (svc : Bool) (ct : ChangeType) (o : Outcome) : Option Bool :=
+  match (stepSvc plus s svc ct o).2.2 with
+  | some e => some e
+  | none => (stepSvc plus s svc ct o).2.1
+
+/-- VARIANT (refuted, see `by_value_before_error_refuted`): the result is remembered from the by-value struct BEFORE the
+error is recorded in it (`h.latestReloadResult = nginxReloadRes` moved above `if err != nil`), the batch's own statuses get
+the result as a parameter — so the remembered result is always "no error" -/
+def stepStoreBeforeError (plus : Bool) (s : HState) (ct : ChangeType) (o : Outcome) : HState × Option Bool :=
+  match ct with
+  | .noChange => (s, none)
+  | _ => ({ (step plus s ct o).1 with latestErr := false }, (step plus s ct o).2)
+
 end NGF.HandlerStatus
